@@ -29,6 +29,31 @@ inline bool isIdent(const std::string &t) { return !t.empty() && std::isalpha((u
 inline bool isNumber(const std::string &t) { return !t.empty() && (std::isdigit((unsigned char)t[0]) || t[0] == '#'); }
 inline bool isSpace(const std::string &t) { return !t.empty() && std::isspace((unsigned char)t[0]); }
 
+// Byte-level noise: the bytes a text editor never produces but a file can hold (NUL, 0xFF, DEL, ^Z,
+// CR, form feed), inserted, replacing a byte, or following a complete program; or the file ends at an
+// arbitrary byte.
+// Not 0xFF in X sources: xcmp's lexer holds the character in a `char` and compares it with EOF, so a
+// 0xFF byte ends the program there; reading from a file it then closes the stream, reading from a
+// buffer it carries on lexing behind the end-of-file token.  The two entry points legitimately differ
+// on such a source, so the library cannot serve as the reference for the executable (DESIGN.md 7.3).
+inline std::string byteNoise(sim::Rng &r, const std::string &src, bool isX) {
+  static const unsigned char odd[] = {0x00, 0x00, 0x00, 0xFF, 0xFF, 0x80, 0x1A, 0x0D, 0x7F, 0x01, 0x0C, 0x0B, 0xC3};
+  std::string s = src;
+  unsigned char b = odd[r.below(sizeof odd)];
+  if (isX && b == 0xFF) b = 0xFE;
+  switch (r.below(6)) {
+    case 0: s.insert(s.begin() + (long)r.below(s.size() + 1), (char)b); break;                 // anywhere
+    case 1: s.push_back((char)b); if (r.chance(1, 2)) s += "junk ("; break;                     // after the last byte
+    case 2: { size_t nl = s.rfind('\n', s.size() > 1 ? s.size() - 2 : 0);                      // start of the last line
+              s.insert(nl == std::string::npos ? 0 : nl + 1, 1, (char)b); break; }
+    case 3: if (!s.empty()) s[r.below(s.size())] = (char)b; break;                             // replaces a byte
+    case 4: { size_t h = s.find(r.chance(1, 2) ? '#' : '|');                                   // inside a comment, if there is one
+              s.insert(h == std::string::npos ? (size_t)r.below(s.size() + 1) : h + 1, 1, (char)b); break; }
+    default: s.resize((size_t)r.below(s.size() + 1)); break;                                   // file ends early
+  }
+  return s;
+}
+
 inline std::string mutateSource(sim::Rng &r, const std::string &src, bool isX, int maxEdits = 3) {
   std::vector<std::string> t = tokenize(src);
   if (t.empty()) return src;
@@ -71,6 +96,7 @@ inline std::string mutateSource(sim::Rng &r, const std::string &src, bool isX, i
   }
   std::string out;
   for (auto &x : t) out += x;
+  if (r.chance(1, 6)) out = byteNoise(r, out, isX);
   return out;
 }
 
